@@ -30,6 +30,7 @@ MIN_REACH = {
     "earlier_crops_whose_cleanup_hit_an_error": {"quick": 5, "thorough": 100},
     "pipelines_reaped": {"quick": 120, "thorough": 2000},
     "crops_also_reaped_as_a_table": {"quick": 8, "thorough": 120},
+    "reaps_told_to_wait_on_ten_and_more_batches": {"quick": 4, "thorough": 80},
     "fresh_process_steps": {"quick": 15, "thorough": 300},
     "batches_grown": {"quick": 450, "thorough": 10000},
     "positions_compared": {"quick": 700, "thorough": 25000},
@@ -93,6 +94,7 @@ def cases(ctx):
     for i in range(n):
         c = _gen(rng, fresh=(i % (n // nfresh) == 0))
         c["table_first"] = i % 2 == 1
+        c["reap_waits"] = i % 3 == 0
         yield c
     # loky workers inside grow / across batches (slow to start, sampled)
     for i in range(ctx.pick(8, 60)):
@@ -301,7 +303,14 @@ def run_case(ctx, case):
                 if kind in ("int", "float", "str", "bool") and case.get("table_first"):
                     # the same crop first collected as a table, one row per setting (nothing is deleted by that), then as usual
                     table = crop.reap_combos_to_ds(var_names=["y"], to_df=True, clean_up=False)
-                result = crop.reap()
+                if case.get("reap_waits") or (B >= 10 and "table_first" in case and not case["table_first"]):
+                    # the reaper was told to wait for results (they are all there already): the same result
+                    result = crop.reap(wait=True)
+                    ctx.count("reaps_told_to_wait")
+                    if B >= 10:
+                        ctx.count("reaps_told_to_wait_on_ten_and_more_batches")
+                else:
+                    result = crop.reap()
         except Exception as e:
             return fail("reap raised %r" % (e,), step="reap", **exc_sig(e))
         if table is not None:
